@@ -87,48 +87,174 @@ def nontrivial(hist) -> bool:
 VARIANTS = ["memerr_pre", "memerr_post", "int_pre", "int_post", "switch_pre", "switch_post", "duet_pre", "duet_post"]
 
 
-def duet_case(rng, case, history, site, variant, stats):
+def duet_case(rng, case, history, site, variant, stats, want_op=None):
     """Directed concurrency case: the step that reaches `site` is paused right before / after that write, a SECOND
     client then runs one complete call of the SAME operation on other operands of the pool, then the first resumes.
     This is the schedule that exposes call-local state kept in module- or class-level variables.
     Returns (case, history, plan) or None."""
     site = tuple(site)
-    hit = None
+    hits = []
     for h in history:
-        if h.get("status") != "ok":
+        if h.get("status") != "ok" or h["op"] not in OPS:
             continue
         for o, key in (h.get("wsk") or []):
             if tuple(key) == site:
-                hit = (h, o)
+                hits.append((h, o))
                 break
-        if hit:
-            break
-    if hit is None:
+    if not hits:
         return None
-    h, o = hit
+    # a site inside a helper (is_multiple, _get_index_mapping, ...) is reached by many different operations; which of
+    # them is doubled is part of the schedule space, so each (program, variant) draws its own
+    rng = random.Random(f"duet|{case.get('seed')}|{site}|{variant}")
+    by_op = {}
+    for h_, o_ in hits:
+        by_op.setdefault(h_["op"], (h_, o_))
+    if want_op is not None and want_op not in by_op:
+        return None
+    h, o = by_op[want_op if want_op is not None else rng.choice(sorted(by_op))]
+    # ... and with several operations to choose from, the second client sometimes runs ANOTHER operation that passes
+    # the same site (its own call from the golden history, whose operands exist before the first one starts)
+    cross = None
+    produced_before = {x for h_ in history if h_["i"] < h["i"] for x in (h_.get("out") or [])}
+    others = [by_op[k][0] for k in sorted(by_op) if k != h["op"] and
+              all(a_ < len(case["recipes"]) or a_ in produced_before for a_ in by_op[k][0]["args"])]
+    if others and rng.random() < 0.35:
+        cross = rng.choice(others)
     op = OPS.get(h["op"])
     if op is None:
         return None
     world, _ = X.build_world(case)
     n_rec = len(case["recipes"])
     metas = {s_: m for s_, m in world.metas.items() if s_ < n_rec}
-    args2 = []
+    # bring the scratch world to the state right before the doubled step (its operands may be results of earlier
+    # steps), so that candidate second calls can be tried out
+    ctx_ = X.new_ctx()
+    removed_ = set(case.get("removed", []))
+    for st_ in case["steps"]:
+        if st_["i"] >= h["i"]:
+            break
+        if st_["i"] in removed_:
+            continue
+        out_ = X.exec_step(world, st_, ctx_)
+        if out_.status == "ok":
+            X.store_outputs(world, st_, out_)
+    origs = [h["args"][k] if k < len(h["args"]) else None for k in range(len(op.args))]
+
+    def differs(s_, orig):
+        # an alias or a copy of the original operand would make both clients compute the same numbers, and state
+        # leaking from one call into the other would be invisible
+        a_, b_ = world.slots.get(orig), world.slots.get(s_)
+        try:
+            return not (a_.shape == b_.shape and np.array_equal(np.asarray(a_.array), np.asarray(b_.array)))
+        except Exception:  # noqa: BLE001
+            return s_ != orig
+
+    def same_kind(s_, orig):
+        # same class, shape and dtype: whatever the library keys hidden state on, the two calls collide on it
+        a_, b_ = world.slots.get(orig), world.slots.get(s_)
+        try:
+            return type(a_) is type(b_) and a_.shape == b_.shape and a_.array.dtype == b_.array.dtype
+        except Exception:  # noqa: BLE001
+            return False
+
+    pools = []
     for k, spec in enumerate(op.args):
-        orig = h["args"][k] if k < len(h["args"]) else None
+        orig = origs[k]
         m0 = world.metas.get(orig) if orig in world.metas else None
         cands = [s_ for s_ in sorted(metas) if spec.ok(metas[s_]) and
                  (m0 is None or metas[s_].get("dim") == m0.get("dim"))]
         if not cands:
             return None
-        other = [s_ for s_ in cands if s_ != orig] or cands
-        args2.append(rng.choice(other))
+        other = [s_ for s_ in cands if s_ != orig and differs(s_, orig)]
+        alike = [s_ for s_ in other if same_kind(s_, orig)]
+        x_ = world.slots.get(orig)
+        can_twin = orig is not None and orig < n_rec and isinstance(getattr(x_, "array", None), np.ndarray) \
+            and x_.array.dtype.kind in "iufc" and x_.array.size > 0   # (a twin is a recipe: only of pool objects)
+        pools.append((cands, other, alike, can_twin))
+
+    def near(k):
+        """operand k replaced by one of the same class, shape and dtype with other coordinates"""
+        cands, other, alike, can_twin = pools[k]
+        if alike and (not can_twin or rng.random() < 0.5):
+            return rng.choice(alike)
+        if can_twin:
+            return ("twin", origs[k])
+        return rng.choice(other or [s_ for s_ in cands if s_ != origs[k]] or cands)
+
+    def selection():
+        mode = rng.choice(["one", "one", "all", "other", "diag", "diag"]) if op.args else "other"
+        if mode == "diag":
+            # the same operand (or a twin of it) in every position that accepts it: comparisons, incidence and
+            # dependence tests then answer the opposite of what they answer for operands in general position
+            j0 = rng.randrange(len(op.args))
+            a0 = origs[j0] if origs[j0] is not None and rng.random() < 0.5 else near(j0)
+            m_a0 = world.metas.get(a0) if not isinstance(a0, tuple) else world.metas.get(a0[1])
+            return [a0 if (m_a0 is not None and op.args[j].ok(m_a0)) else (origs[j] if origs[j] is not None else near(j))
+                    for j in range(len(op.args))]
+        if mode == "one":
+            # the same call with ONE operand exchanged: same shapes and dtypes everywhere, most likely another answer
+            k = rng.randrange(len(op.args))
+            return [near(j) if j == k else (origs[j] if origs[j] is not None else near(j)) for j in range(len(op.args))]
+        if mode == "all":
+            return [near(j) for j in range(len(op.args))]
+        return [rng.choice(pools[j][1] or [s_ for s_ in pools[j][0] if s_ != origs[j]] or pools[j][0])
+                for j in range(len(op.args))]
+
+    def trial(sel):
+        """canonical answer of the second call when run alone, or None when it cannot be computed here"""
+        objs = []
+        for a_ in sel:
+            try:
+                objs.append(W._b_twin(world, a_[1]) if isinstance(a_, tuple) else world.get(a_))
+            except Exception:  # noqa: BLE001  (void slot, an operand produced by an earlier step, no twin)
+                return None
+        try:
+            return snapshot.canon(op.fn(objs, h.get("p")))
+        except Exception as e:  # noqa: BLE001
+            return snapshot.canon(e)
+
+    # state that leaks from one call into the other is invisible when both calls compute the same thing, and calls on
+    # operands of other shapes do not collide on state keyed by shape: prefer a second call whose operands are all of
+    # the same class/shape/dtype as the first one's and whose answer (run alone) differs from the first one's
+    def alike_all(sel_):
+        def ok_(j, a_):
+            if isinstance(a_, tuple):
+                a_ = a_[1]
+            return a_ == origs[j] or a_ in pools[j][2] or same_kind(a_, origs[j])
+
+        return all(ok_(j, a_) for j, a_ in enumerate(sel_))
+
+    best = None
+    for _ in range(6):
+        cand_sel = selection()
+        ans = trial(cand_sel)
+        score = 2 * alike_all(cand_sel) + (ans is not None and ans != h.get("ans"))
+        if best is None or score > best[0]:
+            best = (score, cand_sel)
+        if score == 3:
+            break
+    sel = best[1]
+    twins = {}
+    for a_ in sel:
+        if isinstance(a_, tuple) and a_[1] not in twins:
+            twins[a_[1]] = ("twin", len(twins))
+    args2 = [twins[a_[1]] if isinstance(a_, tuple) else a_ for a_ in sel]
+    n_twin = len(twins)
     case = json.loads(json.dumps(strip_case(case), default=batch_default))
     new_i = max(s_["i"] for s_ in case["steps"]) + 1
     top = max([x for s_ in case["steps"] for x in s_.get("out", [])] + [n_rec]) + 1
+    for orig, tag in twins.items():
+        case["recipes"].append({"slot": top + tag[1], "k": "twin", "a": [orig]})
+    args2 = [top + a_[1] if isinstance(a_, tuple) else a_ for a_ in args2]
+    top += n_twin
     for s_ in case["steps"]:
         s_["c"] = 0
-    case["steps"].append({"i": new_i, "c": 1, "op": h["op"], "args": args2, "p": h.get("p"),
-                          "out": list(range(top, top + X.MAX_OUT)), "mode": "typed"})
+    if cross is not None:
+        case["steps"].append({"i": new_i, "c": 1, "op": cross["op"], "args": list(cross["args"]), "p": cross.get("p"),
+                              "out": list(range(top, top + X.MAX_OUT)), "mode": "typed"})
+    else:
+        case["steps"].append({"i": new_i, "c": 1, "op": h["op"], "args": args2, "p": h.get("p"),
+                              "out": list(range(top, top + X.MAX_OUT)), "mode": "typed"})
     case["cfg"]["n_clients"] = 2
     hist2, v = X.golden_run(case, None, stats)
     if v is not None:
@@ -176,8 +302,10 @@ def directed_plan(rng, case, history, site, variant) -> dict | None:
 
 def run_c12_seed(seed, want_sample: bool = False, config: str | None = None) -> dict:
     directed = None
+    want_op = None
     if isinstance(seed, (tuple, list)):
-        seed, site, variant = seed
+        want_op = seed[3] if len(seed) > 3 else None
+        seed, site, variant = seed[:3]
         directed = (tuple(site), variant)
     worker_init()
     t0 = time.perf_counter()
@@ -192,14 +320,18 @@ def run_c12_seed(seed, want_sample: bool = False, config: str | None = None) -> 
         res["config"] = "golden"
         if directed is None:
             hits = {}
+            site_ops = {}
             for h in history:
                 for _o, key in (h.get("wsk") or []):
                     hits.setdefault(tuple(key), seed)
+                    if h.get("status") == "ok":
+                        site_ops.setdefault(tuple(key), set()).add(h["op"])
             res["site_hits"] = hits
+            res["site_ops"] = {k: sorted(v_) for k, v_ in site_ops.items()}
         if v is None:
             cfgname = config or CONFIGS[rng.randrange(4)]
             if directed is not None and directed[1].startswith("duet"):
-                dc = duet_case(rng, case, history, directed[0], directed[1], stats)
+                dc = duet_case(rng, case, history, directed[0], directed[1], stats, want_op)
                 cfgname = "directed"
                 if dc is None:
                     res["config"] = "directed_unreached"
